@@ -186,7 +186,7 @@ let probe st (a : string list) : string list =
        let off = ref offsetOldest in
        let continue = ref true in
        let iters = ref 0 in
-       while !continue && !iters < 100000 do
+       while !continue && !iters < int_of_z next + 4 do
          incr iters;
          (match log_consume h st.s !off (z_of_int 7) with
           | Err e ->
@@ -195,7 +195,7 @@ let probe st (a : string list) : string list =
           | Ok (s', (n, ms)) ->
             st.s <- s';
             res := Printf.sprintf "scan %s => ok %s%s" (string_of_z !off) (string_of_z n) (fmt_msgs ms) :: !res;
-            if (Z.compare n next <> Lt && ms = []) || (Z.compare n !off = Eq && ms = [])
+            if (Z.compare n next <> Lt && ms = []) || (Z.compare !off Z0 <> Lt && Z.compare n !off <> Gt)
             then continue := false
             else off := n)
        done;
@@ -863,8 +863,81 @@ let run_check (path : string) =
   close_in ic;
   Printf.printf "PSUMMARY checked=%d failed=%d\n" !nchecked !nfail
 
+
+(* ====================================================================
+   codec mode: byte-level functions of Codec.v *)
+
+let parse_item (tok : string) : item =
+  match String.split_on_char '|' tok with
+  | [o; p; t; hh] -> { ioff = z_of_string o; ipos = z_of_string p; its = z_of_string t; ihash = z_of_string hh }
+  | _ -> failwith ("bad item " ^ tok)
+
+let fmt_item (it : item) : string =
+  Printf.sprintf "%s|%s|%s|%s" (string_of_z it.ioff) (string_of_z it.ipos) (string_of_z it.its) (string_of_z it.ihash)
+
+let ver_of s = if s = "1" then V1 else V2
+let params_of_toks t k = { ptimes = (t = "1"); pkeys = (k = "1") }
+let opt_hex s = if s = "none" then None else Some (bytes_of_hex s)
+let hex_or_empty b = match b with [] -> "-" | _ -> hex_of_bytes b
+
+let codec_step (f : string list) : string =
+  match f with
+  | "enc" :: v :: _base :: ms ->
+    let v = ver_of v in
+    let msgs = List.map parse_full_msg ms in
+    let b = enc_log crc32c v msgs in
+    (* positions: prefix sums *)
+    let pos = ref (int_of_z (hdr_size v)) in
+    let ps = List.map (fun m -> let p = !pos in pos := p + int_of_z (rec_size v m); string_of_int p) msgs in
+    Printf.sprintf "%s %s" (hex_or_empty b) (if ps = [] then "-" else String.concat "," ps)
+  | ["dec"; base; hx; _kind] ->
+    let b = bytes_of_hex hx in
+    (match log_version b (z_of_string base) with
+     | Err e -> "openerr " ^ class_name e
+     | Ok v ->
+       let ((recs, p), e) = scan_log crc32c (scan_fuel_of b) v b (hdr_size v) in
+       let st = (match e with ScanEOF -> "eof" | ScanCorrupt -> "corrupt" | ScanFuel -> "fuel") in
+       Printf.sprintf "v%s %s@%s%s" (match v with V1 -> "1" | V2 -> "2") st (string_of_z p)
+         (String.concat "" (List.map (fun (pos, m) -> Printf.sprintf " %s:%s" (string_of_z pos) (fmt_msg m)) recs)))
+  | "ienc" :: v :: t :: k :: _base :: items ->
+    hex_or_empty (enc_index (ver_of v) (params_of_toks t k) (List.map parse_item items))
+  | ["idec"; t; k; base; hx] ->
+    (match index_read (params_of_toks t k) (z_of_string base) (bytes_of_hex hx) with
+     | Err e -> err e
+     | Ok (_, items) -> "ok" ^ String.concat "" (List.map (fun it -> " " ^ fmt_item it) items))
+  | ["check"; t; k; base; lhx; ihx] ->
+    (match check_bytes crc32c fnv64a (params_of_toks t k) (z_of_string base) (bytes_of_hex lhx) (opt_hex ihx) with
+     | Err e -> err e
+     | Ok () -> "ok")
+  | ["recover"; t; k; base; lhx; ihx] ->
+    (match recover_bytes crc32c fnv64a (params_of_toks t k) (z_of_string base) (bytes_of_hex lhx) (opt_hex ihx) with
+     | Err e -> err e
+     | Ok (nl, ni) -> Printf.sprintf "ok %s %s" (hex_or_empty nl)
+                        (match ni with None -> "none" | Some b -> hex_or_empty b))
+  | ["hash"; k] -> string_of_z (fnv64a (bytes_of_hex k))
+  | ["crc"; hx] -> string_of_z (crc32c (bytes_of_hex hx))
+  | _ -> "err UnknownOp"
+
+let run_codec (path : string) =
+  let ic = open_in path in
+  (try
+     while true do
+       let line = String.trim (input_line ic) in
+       if line = "" || line.[0] = '#' then ()
+       else begin
+         print_endline line;
+         if not (String.length line > 5 && String.sub line 0 5 = "case ") then begin
+           let r = (try codec_step (toks line) with Failure m -> "err ModelFailure " ^ m) in
+           print_string "= "; print_endline r
+         end
+       end
+     done
+   with End_of_file -> ());
+  close_in ic
+
 let () =
   match Array.to_list Sys.argv with
   | _ :: "hist" :: path :: _ -> run_hist path
   | _ :: "check" :: path :: _ -> run_check path
+  | _ :: "codec" :: path :: _ -> run_codec path
   | _ -> prerr_endline "usage: kvmodel hist <file>"; exit 2
